@@ -10,6 +10,7 @@ pub mod c04;
 pub mod c05;
 pub mod c06;
 pub mod c07;
+pub mod c08;
 pub mod c09;
 pub mod c10;
 pub mod c11;
@@ -26,6 +27,7 @@ pub fn run(id: &str, tier: Tier, seed: u64) -> Option<i32> {
         "C05" => c05::run(tier, seed),
         "C06" => c06::run(tier, seed),
         "C07" => c07::run(tier, seed),
+        "C08" => c08::run(tier, seed),
         "C09" => c09::run(tier, seed),
         "C10" => c10::run(tier, seed),
         "C11" => c11::run(tier, seed),
@@ -52,6 +54,7 @@ pub fn replay(prop: &str, case: &serde_json::Value) -> Result<u64, String> {
             c10::replay(case)
         }
         "c16-history" => c16::replay(case),
+        "c08-step" | "c08-builder" => c08::replay(case),
         _ => Err(format!("no replay handler for property {prop} case kind {:?}", case["kind"])),
     }
 }
